@@ -195,6 +195,17 @@ theorem C17_group_pull_loop [DecidableEq V] (reduce : List (Option V) → Option
   intro h
   rw [hinv.lastSent, pullRun_current reduce n evs h, hslots]
 
+/-- **C17_group_pull_send_error.** The subscriber goes away: the `k`-th `server.Send` fails (`k ≥ 1`).
+For every reducer, member count and sequence of member messages: what was forwarded is exactly the
+first `k` values the undisturbed subscription forwards, and the subscription has ended by itself
+(cancel the members, wait for `Execute`, return Send's error) iff the undisturbed one forwards at least
+`k` values - it never ends early, never carries on after the failure. -/
+theorem C17_group_pull_send_error [DecidableEq V] (reduce : List (Option V) → Option V) (n k : Nat)
+    (hk : k ≠ 0) (evs : List (Nat × List V)) :
+    (pullRunFail reduce n k evs).1.sent = (pullRun reduce n evs).sent.take k
+    ∧ ((pullRunFail reduce n k evs).2.1.isSome ↔ k ≤ (pullRun reduce n evs).sent.length) :=
+  pullFoldFail_sent reduce k hk evs (pullInit n) 0 (by show 0 < k; omega)
+
 /-- for the two traits: the value a subscriber of a light / onoff Group holds after any sequence of
 member messages is the mean of the latest levels / ON-wins of the latest states of the members heard
 from -/
@@ -231,6 +242,10 @@ example : onoffGet (execute .all 2 (arrivals [⟨some 2, none⟩, ⟨none, some 
 nothing forwarded), an empty message, member 0 goes OFF via ON (only the last change counts) -/
 example : (pullRun onoffReduceChanges 2 [(1, [2]), (0, [1]), (1, [2]), (0, []), (0, [1, 2])]).sent
     = [some 2, some 1, some 2] := by decide
+
+/-- the same run with the 2nd Send failing: two values forwarded, ended after the 2nd message -/
+example : (pullRunFail onoffReduceChanges 2 2 [(1, [2]), (0, [1]), (1, [2]), (0, []), (0, [1, 2])]).1.sent = [some 2, some 1]
+    ∧ (pullRunFail onoffReduceChanges 2 2 [(1, [2]), (0, [1]), (1, [2]), (0, []), (0, [1, 2])]).2.1 = some 2 := by decide
 
 /-- the hypothesis of `C17_onoff_reduce` holds for the states of the enum -/
 example : ∀ v, v ∈ present [some 1, none, some 2, some 0] → v ≤ 2 := by decide
